@@ -175,7 +175,7 @@ def remove_items(fs, conf):
                         dirs.append(subitem)
                     else:
                         subitem.unlink()
-                for subitem in dirs:
+                for subitem in reversed(dirs):
                     subitem.rmdir()
                 item.rmdir()
             else:
